@@ -621,3 +621,31 @@ def show_word(word):
         else:
             out.append(a)
     return "".join(out)
+
+
+def char_predicate(prog, fn):
+    """The set of characters for which a predicate `fn(char-like) -> bool` returns true, as sorted [lo, hi] code point intervals.
+    The predicate is evaluated (on the abstract machine above, which here has no input stream) once per interval between the character
+    constants its family compares with; raises Undecided when something outside the model is met."""
+    sc = Scanner(prog, fn)
+    body = prog.bodies[fn]
+    cuts = sc.alphabet + [0x110000]
+    true_iv = []
+    for lo, hi in zip(cuts, cuts[1:]):
+        env = {i: ("c", lo) for i in range(1, body.argc + 1)}
+        r = sc.run(((Frame(fn, 0, env, None).freeze(),), "no"))
+        if r[0] != "ret" or r[1] is None or r[1][0] != "b":
+            raise Undecided("the predicate does not return a known boolean")
+        if r[1][1]:
+            hi_ = hi - 1
+            if lo <= 0xD7FF < hi_ and hi_ >= 0xE000:
+                pass        # the interval spans the surrogate gap: still one interval of chars
+            if true_iv and true_iv[-1][1] + 1 == lo:
+                true_iv[-1][1] = hi_
+            else:
+                true_iv.append([lo, hi_])
+    return true_iv
+
+
+def in_intervals(iv, c):
+    return any(lo <= c <= hi for lo, hi in iv)
